@@ -117,11 +117,11 @@ def magnitude(D):
     return max([1.0] + [max_abs(M) for M in D.values()])
 
 
-def noise_floor(p: Problem, n) -> float:
+def noise_floor(p: Problem, n, even_if_exact: bool = False) -> float:
     """Rounding noise of the *input* (e.g. 1e-16 off-diagonal entries left by rotating the Hamiltonian into a supplied
     eigenbasis) is amplified by (|H'| / gap) at every order, whatever the exact values are - also when the exact
     result vanishes by a symmetry that rounding breaks.  1000 eps x that natural size bounds it."""
-    if p.exact:
+    if p.exact and not even_if_exact:
         return 0.0
     z = (0,) * p.n_par
     E = np.diag(np.asarray(p.terms_f[z], complex))
